@@ -19,6 +19,9 @@
 (*   lip     gradients at two points and f.grad_lipschitz                  *)
 (*   cdrel   central-difference errors e(h), e(h/2) (relational only)      *)
 (*   value   f(x)                                                          *)
+(*   rel     a named relation lhs >= rhs / lhs = rhs between observed      *)
+(*           numbers (objects outside the catalogue)                       *)
+(*   lin     f.is_linear together with f(x), f(y), f(x+y), f(2x), f(0)     *)
 (* The specification is TOTAL: a rejected event prints                     *)
 (*   <<"FAIL", line, id, clauses>>   and validation continues.             *)
 (***************************************************************************)
@@ -113,6 +116,22 @@ CdClauses(e) ==
   IF (IF e.opaque = 1 THEN TRUE ELSE SmoothAlong(e.sp, e.f, e.x, e.d, Q(1, 64))) /\ 3 * e.e2q > e.e1q + 3 * e.floorq
     THEN {"central-difference-convergence"} ELSE {}
 
+\* a relation between numbers observed on objects outside the catalogue (parametrised conjugate pairs with a
+\* generic exponent, nuclear norms, functionals on the scalar field): lhs >= rhs or lhs = rhs, named by the driver
+AbsI(a) == IF a < 0 THEN -a ELSE a
+RelClauses(e) ==
+  IF e.mode = "ge" THEN (IF e.lhsq < e.rhsq - e.slackq THEN {e.cl} ELSE {})
+  ELSE (IF AbsI(e.lhsq - e.rhsq) > e.slackq THEN {e.cl} ELSE {})
+
+\* f.is_linear claims a linear map; the observed values and the values of the specification may refute it
+LinClauses(e) ==
+  IF e.flag = 0 THEN {}
+  ELSE (IF e.fin = 1 /\ (AbsI(e.fxyq - e.fxq - e.fyq) > e.slackq \/ AbsI(e.f2xq - 2 * e.fxq) > e.slackq
+                          \/ AbsI(e.f0q) > e.slackq)
+          THEN {"is_linear-refuted-by-observed-values"} ELSE {}) \cup
+       (IF e.opaque = 0 /\ LinearRefutedAt(e.sp, e.f, e.x, e.y)
+          THEN {"is_linear-refuted-by-specification"} ELSE {})
+
 ValueClauses(e) ==
   IF e.fx # NaN /\ ValueBad(e.fx, QValue(Entry(e.sp, e.f, 0), e.x)) THEN {"value"} ELSE {}
 
@@ -127,6 +146,8 @@ Clauses(e) ==
     [] e.k = "lip"    -> LipClauses(e)
     [] e.k = "cdrel"  -> CdClauses(e)
     [] e.k = "value"  -> ValueClauses(e)
+    [] e.k = "rel"    -> RelClauses(e)
+    [] e.k = "lin"    -> LinClauses(e)
     [] OTHER -> {"unknown-event-kind"}
 
 TraceInit == l = 1 /\ stack = <<>>
